@@ -40,6 +40,33 @@ SKIP_KINDS = {"bind", "enter", "leave", "def", "assume"}
 PURE_BUILTINS = {"bool", "len", "isinstance", "str", "id", "hasattr", "callable", "iter", "list", "tuple"}
 
 
+def _length_test(t: ast.AST, taken: bool):
+    """(object term, admitted lengths among 0..3) when the branch asks about the length / emptiness of a list-valued term
+    (a sum of results, a `$l`/`$c` collection); None otherwise."""
+    import operator as _op
+
+    ops = {ast.Eq: _op.eq, ast.NotEq: _op.ne, ast.Lt: _op.lt, ast.LtE: _op.le, ast.Gt: _op.gt, ast.GtE: _op.ge}
+    while isinstance(t, ast.UnaryOp) and isinstance(t.op, ast.Not):
+        t, taken = t.operand, not taken
+    if isinstance(t, ast.Compare) and len(t.ops) == 1 and type(t.ops[0]) in ops:
+        l, r = t.left, t.comparators[0]
+        if isinstance(l, ast.Call) and isinstance(l.func, ast.Name) and l.func.id == "len" and len(l.args) == 1 and isinstance(r, ast.Constant) \
+                and type(r.value) is int:
+            f = ops[type(t.ops[0])]
+            return l.args[0], [n for n in (0, 1, 2, 3) if f(n, r.value) == taken]
+        if isinstance(r, ast.Call) and isinstance(r.func, ast.Name) and r.func.id == "len" and len(r.args) == 1 and isinstance(l, ast.Constant) \
+                and type(l.value) is int:
+            f = ops[type(t.ops[0])]
+            return r.args[0], [n for n in (0, 1, 2, 3) if f(l.value, n) == taken]
+        return None
+    if isinstance(t, ast.Call) and isinstance(t.func, ast.Name) and t.func.id == "len" and len(t.args) == 1:
+        return t.args[0], [n for n in (0, 1, 2, 3) if (n > 0) == taken]
+    # truthiness of a value known to be a list: a concatenation of call results (`before + on` results)
+    if isinstance(t, ast.BinOp) and isinstance(t.op, ast.Add):
+        return t, [n for n in (0, 1, 2, 3) if (n > 0) == taken]
+    return None
+
+
 def _canon_trace(ctx: Ctx, p: Path, drop_rtc: bool) -> List[str]:
     """Semantic trace of a path: effectful calls, stores, decisions, loop heads, handlers, outcome - with helper
     artefacts (inlined calls, objects built by helpers, `finally`/`with` markers, pure builtins) removed, conditions
@@ -90,6 +117,8 @@ def _canon_trace(ctx: Ctx, p: Path, drop_rtc: bool) -> List[str]:
     for e in evs:
         if e.kind in SKIP_KINDS or e.kind in ("finally", "with", "alloc"):
             continue
+        if e.kind == "comp" and isinstance(e.term, ast.GeneratorExp):
+            continue  # creating a generator does nothing yet: what it does shows where it is iterated
         if e.kind == "call":
             if e.idx in inlined or f"$c{e.idx}" in pure:
                 continue
@@ -103,7 +132,12 @@ def _canon_trace(ctx: Ctx, p: Path, drop_rtc: bool) -> List[str]:
         elif e.kind == "branch":
             if drop_rtc and show(e.term) == "self._rtc":
                 continue
-            push(f"branch {canon(e.term)} -> {e.x['taken']}")
+            lt = _length_test(_Pure().visit(__import__("copy").deepcopy(e.term)), e.x["taken"])
+            if lt is not None:
+                # `len(x) == 0`, `not x`, `len(x) > 0` ... are the same question about x: written as the set of lengths it admits
+                push(f"branch len({canon(lt[0])}) in {lt[1]}")
+            else:
+                push(f"branch {canon(e.term)} -> {e.x['taken']}")
         elif e.kind == "iter":
             if e.x.get("loop") == "for":
                 push(f"iter {canon(e.term)}")
